@@ -37,7 +37,7 @@ LEVEL = {
          "flock semantics, RamDirectory (HashMap) and racing creations are reduced to the create-new assumption"),
  "C19": ("K", "Tightly bounded, CBMC: token offsets of Simple / Whitespace tokenizers on every valid UTF-8 text of 2-3 bytes with Unicode classification stubbed by an arbitrary class function; NgramTokenizer emits exactly the n-grams in order on char boundaries for every valid UTF-8 text of 3 bytes (4 in the thorough tier); snippet range merging.",
          "texts > 3-4 bytes, filters that rewrite text, the compound splitter, stemmers, regex, HTML escaping are outside; the stub makes no claim about which characters are letters"),
- "C20": ("K+M", "CBMC: FooterProxy hashes exactly the accepted bytes under short writes, version gate, CRC-32 (baseline implementation) detects single byte / bit damage and length change of small bodies; z3 over MIR: validate_checksum hashes the extracted body and compares with the footer, open_read gates on is_compatible.",
+ "C20": ("K+M", "CBMC: FooterProxy hashes exactly the accepted bytes under short writes, version gate, CRC-32 (baseline implementation) detects single byte / bit damage and length change of small bodies; z3 over MIR: validate_checksum hashes the extracted body and compares with the footer and never returns an Ok verdict without having computed the CRC, open_read gates on is_compatible.",
          "SIMD CRC, JSON footers and wider damage are outside"),
 }
 REF = {k: "DESIGN.md §4 " + k for k in LEVEL}
